@@ -50,6 +50,18 @@ func RunOnce(t *testing.T, sc *Scenario, tape *Tape, keepTrace bool) *RunResult 
 // RunOnceLogged is RunOnce with a crash log (see Run.CrashLog).
 func RunOnceLogged(t *testing.T, sc *Scenario, tape *Tape, keepTrace bool, crashLog string) *RunResult {
 	res := &RunResult{Scenario: sc}
+	if sc.Late != nil {
+		// real clock, real processes: not inside a bubble
+		lr := &lateRun{sc: sc, ls: sc.Late, stats: Stats{Faults: map[string]int{}, Probes: map[string]int{}, AbstractSeen: map[string]bool{}}}
+		lr.execute()
+		res.Violations, res.Stats = lr.viol, lr.stats
+		res.Hash = lateHash(sc, lr.viol)
+		if keepTrace {
+			res.Trace = lr.trace
+		}
+		res.Tape = []uint32{}
+		return res
+	}
 	if sc.Proc != nil {
 		// real clock, real processes: not inside a bubble
 		pr := &procRun{sc: sc, ps: sc.Proc, stats: Stats{Faults: map[string]int{}, Probes: map[string]int{}, AbstractSeen: map[string]bool{}}}
@@ -185,6 +197,18 @@ func MinimiseWith(fails func(*Scenario, []uint32) bool, sc *Scenario, tape []uin
 	best, bestTape := cloneScenario(sc), append([]uint32(nil), tape...)
 	if !try(best, bestTape) {
 		return best, bestTape, runs // does not reproduce from its own tape: caller treats as trouble
+	}
+	if best.Late != nil {
+		// a late-writer scenario is five numbers; fewer bystanders is all there is to shrink
+		for best.Late.Bystanders > 1 {
+			cand := cloneScenario(best)
+			cand.Late.Bystanders--
+			if !try(cand, bestTape) {
+				break
+			}
+			best = cand
+		}
+		return best, bestTape, runs
 	}
 	improved := true
 	for improved && runs < budget {
